@@ -5,6 +5,7 @@ package harness
 import (
 	"bytes"
 	"fmt"
+	"strings"
 	"testing"
 
 	"github.com/pion/rtp"
@@ -339,6 +340,40 @@ func genPayGenericCase(t *rapid.T) *PayGenericCase {
 			ec := genAV1EdgeCase(t)
 			call.MTU, call.Data = ec.MTU, ec.input()
 		}
+		if !call.Nil && rapid.IntRange(0, 79).Draw(t, "jumbo") == 0 {
+			// an input of 64 KiB or more (sizes that no longer fit 16 bits) with an MTU that keeps the fragment count small
+			call.MTU = uint16(rapid.SampledFrom([]int{1200, 9000, 40000, 65535}).Draw(t, "jumbomtu"))
+			n := rapid.SampledFrom([]int{65534, 65535, 65536, 65537, 65540, 65549, 70000, 131072}).Draw(t, "jumbolen")
+			body := expand(rapid.Uint64().Draw(t, "jumboseed"), 0, n)
+			for i := range body { // keep start codes out of the body
+				if body[i] < 4 {
+					body[i] |= 0x10
+				}
+			}
+			switch {
+			case strings.HasPrefix(c.Payloader, "h264"):
+				body[0] = rapid.SampledFrom([]uint8{0x65, 0x67, 0x68, 0x41}).Draw(t, "jumbohdr")
+				call.Data = append([]byte{0, 0, 0, 1}, body...)
+				if body[0] == 0x67 {
+					call.Data = append(call.Data, 0, 0, 1, 0x68, 0xCE, 0x3C, 0x80, 0, 0, 1, 0x65, 0x88, 0x84, 0x21)
+				}
+				if body[0] == 0x68 {
+					call.Data = append([]byte{0, 0, 1, 0x67, 0x42, 0xC0, 0x1F}, call.Data...)
+					call.Data = append(call.Data, 0, 0, 1, 0x65, 0x88, 0x84, 0x21)
+				}
+			case strings.HasPrefix(c.Payloader, "h265"):
+				body[0], body[1] = 0x26, 0x01
+				call.Data = append([]byte{0, 0, 0, 1}, body...)
+			case c.Payloader == "av1":
+				body[0] = rapid.SampledFrom([]uint8{0x30, 0x34}).Draw(t, "jumboobu")
+				call.Data = body
+			case strings.HasPrefix(c.Payloader, "vp9"):
+				body[0] = rapid.SampledFrom([]uint8{0x84, 0x86}).Draw(t, "jumbovp9")
+				call.Data = body
+			default:
+				call.Data = body
+			}
+		}
 		// bound the output to a few thousand fragments
 		if m := int(call.MTU); m < 8 && len(call.Data) > 600 {
 			call.Data = call.Data[:600]
@@ -349,7 +384,7 @@ func genPayGenericCase(t *rapid.T) *PayGenericCase {
 	return c
 }
 
-const ruleC08 = "rapid draws a payloader (G711, G722, Opus, H264 +-STAP-A, H265 x {AddDONL} x {SkipAggregation}, VP8 +-picture id, VP9 flexible/non-flexible, AV1) and 1-4 calls on one instance: MTU 0-65535 biased to 0-16/100/1200/65535, input nil, empty, random, or grammar-seeded (Annex-B NAL sequences incl. SPS/PPS/AUD and trailing start codes, OBU streams with extension bytes and lying size fields, VP9 frames with generated headers) optionally mutated; inputs sit in an arena with guard bytes and spare capacity. Oracle: no panic, every fragment <= MTU (Opus exempt) and non-empty for non-empty input, arena untouched, and the twin/scribble relation: after each call the input arena is overwritten, fragments returned earlier must not change and every later output must equal that of a twin instance fed pristine copies. Non-trivial = a call returned >=1 fragment; distinct = FNV-64 of the JSON case"
+const ruleC08 = "rapid draws a payloader (G711, G722, Opus, H264 +-STAP-A, H265 x {AddDONL} x {SkipAggregation}, VP8 +-picture id, VP9 flexible/non-flexible, AV1) and 1-4 calls on one instance: MTU 0-65535 biased to 0-16/100/1200/65535, input nil, empty, random, or grammar-seeded (Annex-B NAL sequences incl. SPS/PPS/AUD and trailing start codes, OBU streams with extension bytes and lying size fields, VP9 frames with generated headers) optionally mutated, and (one call in 80) inputs of 65534-131072 bytes incl. a jumbo SPS/PPS followed by a slice; inputs sit in an arena with guard bytes and spare capacity. Oracle: no panic, every fragment <= MTU (Opus exempt) and non-empty for non-empty input, arena untouched, and the twin/scribble relation: after each call the input arena is overwritten, fragments returned earlier must not change and every later output must equal that of a twin instance fed pristine copies. Non-trivial = a call returned >=1 fragment; distinct = FNV-64 of the JSON case"
 
 func TestC08(t *testing.T) {
 	r := begin(t, "C08", "exploration", ruleC08)
